@@ -75,6 +75,11 @@ pub struct Tab {
     pub cnt: usize,
     pub pay: [u8; U],
     pub prio: [u8; U],
+    /// keys for which a second (payload, priority) pair is acceptable as well (where the
+    /// property leaves the choice open)
+    pub altmask: u16,
+    pub altpay: [u8; U],
+    pub altprio: [u8; U],
 }
 
 impl Tab {
@@ -84,7 +89,27 @@ impl Tab {
             cnt: 0,
             pay: [0; U],
             prio: [0; U],
+            altmask: 0,
+            altpay: [0; U],
+            altprio: [0; U],
         }
+    }
+
+    /// `k` may also hold (pay, prio)
+    pub fn allow(&mut self, k: u8, pay: u8, prio: u8) {
+        self.altmask |= 1u16 << k;
+        self.altpay[k as usize] = pay;
+        self.altprio[k as usize] = prio;
+    }
+
+    /// is (pay, prio) an acceptable content for key `k`
+    pub fn accepts(&self, k: u8, pay: u8, prio: u8) -> bool {
+        if !self.has(k) {
+            return false;
+        }
+        let ku = k as usize;
+        (self.pay[ku] == pay && self.prio[ku] == prio)
+            || (self.altmask & (1u16 << k) != 0 && self.altpay[ku] == pay && self.altprio[ku] == prio)
     }
 
     pub fn of_ghost<const N: usize>(g: &Ghost<N>) -> Self {
@@ -146,8 +171,12 @@ pub fn assert_cont<T: Q>(q: &T, want: &Tab) {
         match want.get(i.key) {
             None => assert!(false, "CONT: stored key is in the reference"),
             Some((pay, prio)) => {
-                assert!(p.0 == prio, "CONT: same priority as the reference");
-                assert!(i.pay == pay, "CONT: same stored item value as the reference");
+                if want.altmask & (1u16 << i.key) == 0 {
+                    assert!(p.0 == prio, "CONT: same priority as the reference");
+                    assert!(i.pay == pay, "CONT: same stored item value as the reference");
+                } else {
+                    assert!(want.accepts(i.key, i.pay, p.0), "CONT: one of the pairs the reference allows");
+                }
             }
         }
         s += 1;
@@ -156,6 +185,14 @@ pub fn assert_cont<T: Q>(q: &T, want: &Tab) {
 
 /// the public read API agrees with the reference for the key `k`
 pub fn assert_lookup<T: Q>(q: &mut T, want: &Tab, k: u8) {
+    if want.altmask & (1u16 << k) != 0 {
+        match q.get(&k) {
+            None => assert!(false, "API: get presence agrees with the reference"),
+            Some((i, p)) => assert!(i.key == k && want.accepts(k, i.pay, p.0), "API: get returns one of the pairs the reference allows"),
+        }
+        assert!(q.len() == want.count(), "API: len() is the number of distinct items");
+        return;
+    }
     let w = want.get(k);
     match (q.get(&k), w) {
         (None, None) => {}
